@@ -98,7 +98,10 @@ func readBlobString(i *bufio.Reader) (m RedisMessage, err error) {
 				m.setString(sb.String())
 				return m, nil
 			}
-			sb.Grow(int(length))
+			if length < 0 {
+				return RedisMessage{}, errors.New(unexpectedLength + strconv.FormatInt(length, 10))
+			}
+			sb.Grow(int(min(length, maxPrealloc)))
 			if _, err = io.CopyN(&sb, i, length); err != nil {
 				return RedisMessage{}, err
 			}
@@ -211,9 +214,23 @@ func readB(i *bufio.Reader) (*byte, int64, error) {
 	if length == -1 {
 		return nil, 0, errOldNull
 	}
-	bs := make([]byte, length)
-	if _, err = io.ReadFull(i, bs); err != nil {
-		return nil, 0, err
+	if length < 0 {
+		return nil, 0, errors.New(unexpectedLength + strconv.FormatInt(length, 10))
+	}
+	// the length is declared by the peer: do not trust it for more than maxPrealloc
+	// bytes upfront, grow the buffer as the bytes actually arrive instead.
+	bs := make([]byte, min(length, maxPrealloc))
+	for n := 0; ; {
+		m, err := io.ReadFull(i, bs[n:])
+		if err != nil {
+			return nil, 0, err
+		}
+		if n += m; int64(n) == length {
+			break
+		}
+		grown := make([]byte, min(length, int64(n)*2))
+		copy(grown, bs)
+		bs = grown
 	}
 	if _, err = i.Discard(2); err != nil {
 		return nil, 0, err
@@ -236,13 +253,18 @@ func readE(i *bufio.Reader) (*RedisMessage, int64, error) {
 }
 
 func readA(i *bufio.Reader, length int64) (*RedisMessage, int64, error) {
-	var err error
-
-	msgs := make([]RedisMessage, length)
-	for n := range length {
-		if msgs[n], err = readNextMessage(i); err != nil {
+	if length < 0 {
+		return nil, 0, errors.New(unexpectedLength + strconv.FormatInt(length, 10))
+	}
+	// the length is declared by the peer: do not trust it for more than maxPreallocMsgs
+	// elements upfront, grow the slice as the elements actually arrive instead.
+	msgs := make([]RedisMessage, 0, min(length, maxPreallocMsgs))
+	for range length {
+		m, err := readNextMessage(i)
+		if err != nil {
 			return nil, 0, err
 		}
+		msgs = append(msgs, m)
 	}
 	return unsafe.SliceData(msgs), length, nil
 }
@@ -386,6 +408,12 @@ func flushCmd(o *bufio.Writer, cmd []string) (err error) {
 }
 
 const (
+	maxPrealloc     = 1 << 16 // bytes allocated upfront for a declared blob length
+	maxPreallocMsgs = 64      // elements allocated upfront for a declared aggregate length
+)
+
+const (
+	unexpectedLength   = "received unexpected message length: "
 	unexpectedNoCRLF   = "received unexpected simple string message ending without CRLF"
 	unexpectedNumByte  = "received unexpected number byte: "
 	unknownMessageType = "received unknown message type: "
